@@ -283,6 +283,11 @@ class CoherenceMon(Monitor):
     def on_run_end(self, inc, s, n_total, phase):
         self.readable(inc, s, "run_end")
 
+    def on_readonly(self, inc, s, where):
+        if s.state.get_history_length() > 0:
+            self.whole_history(inc, s.state, where)
+            self.readable(inc, s, where)
+
     def on_exception(self, inc, s, exc):
         inc.world.probe("inspected_after_exception")
         if s.state.get_history_length() > 0:
@@ -331,12 +336,25 @@ class PosteriorMon(Monitor):
         self.full = full
         self.combos = 0
 
+    def on_readonly(self, inc, s, where):
+        """posterior() contract on a sampler that is only read (loaded without running / after manual sample() calls)."""
+        if s.state.get_history_length() > 0:
+            self.contract(inc, s, where)
+        if where == "loaded" and inc.world.case.get("load_which") == "final":
+            # the final checkpoint of a finished run is the state run() returned with: its postconditions hold after a plain load
+            from .oracles import run_postconditions
+
+            run_postconditions(inc.world, s, inc.world.case["n_total"], self.prop, dict(phase="final_checkpoint_loaded"))
+
     def on_run_end(self, inc, s, n_total, phase):
         from .oracles import run_postconditions
 
+        run_postconditions(inc.world, s, n_total, self.prop, dict(phase=phase))
+        self.contract(inc, s, phase)
+
+    def contract(self, inc, s, phase):
         w = inc.world
         t = w.target
-        run_postconditions(w, s, n_total, self.prop, dict(phase=phase))
         batches = refmis.batches_of(s.state)
         bt = np.array([b[0] for b in batches], dtype=refmis.LD)
         zt = np.array([b[1] for b in batches], dtype=refmis.LD)
